@@ -6,4 +6,7 @@ for p in $(python3 -c "import json;print(' '.join(c['property_id'] for c in json
   echo "$out" | grep -v "^KNOWN-FINDING" | tail -1
   if [ $r -ne 0 ]; then rc=1; echo "$out" | grep VIOLATION | head -3; fi
 done
+# the resolution hints must match the contracts (regenerate with `gvc baseline` after editing contracts)
+cp /verif/baseline.json /tmp/baseline.before.$$ && /verif/bin/gvc baseline >/dev/null && cmp -s /verif/baseline.json /tmp/baseline.before.$$ || echo "NOTE: baseline.json was stale and has been regenerated - commit it"
+rm -f /tmp/baseline.before.$$
 exit $rc
